@@ -903,50 +903,64 @@ func runHostile(args []string) int {
 	dir := scratchDir()
 	defer os.RemoveAll(dir)
 	pf := filepath.Join(dir, "cases.json")
-	pb, _ := json.Marshal(payload)
-	ioutil.WriteFile(pf, pb, 0644)
 	self, _ := os.Executable()
 	var viols []violation
 	results := make([]*decodeResult, len(cases))
-	first := 0
 	crashes := 0
-	for first < len(cases) {
-		c := exec.Command(self, "hostile-child", pf, fmt.Sprint(first))
-		var out, errb bytes.Buffer
-		c.Stdout, c.Stderr = &out, &errb
-		c.Run()
-		last := -1
-		for _, line := range strings.Split(out.String(), "\n") {
-			var i int
-			if strings.HasPrefix(line, "START ") {
-				fmt.Sscanf(line, "START %d", &i)
-				last = i
-			}
-			if strings.HasPrefix(line, "DONE ") {
-				var js string
-				parts := strings.SplitN(line, " ", 3)
-				fmt.Sscan(parts[1], &i)
-				js = parts[2]
-				var r decodeResult
-				json.Unmarshal([]byte(js), &r)
-				results[i] = &r
-				if i == last {
-					last = -1
+	// the cases go to the child in chunks: it runs under a 3 GiB address-space limit and reads its whole input
+	const chunk = 2000
+	for base := 0; base < len(cases); base += chunk {
+		end := base + chunk
+		if end > len(cases) {
+			end = len(cases)
+		}
+		pb, _ := json.Marshal(payload[base:end])
+		ioutil.WriteFile(pf, pb, 0644)
+		first := 0
+		for first < end-base {
+			c := exec.Command(self, "hostile-child", pf, fmt.Sprint(first))
+			var out, errb bytes.Buffer
+			c.Stdout, c.Stderr = &out, &errb
+			c.Run()
+			last := -1
+			progressed := false
+			for _, line := range strings.Split(out.String(), "\n") {
+				var i int
+				if strings.HasPrefix(line, "START ") {
+					fmt.Sscanf(line, "START %d", &i)
+					last = i
+					progressed = true
+				}
+				if strings.HasPrefix(line, "DONE ") {
+					var js string
+					parts := strings.SplitN(line, " ", 3)
+					fmt.Sscan(parts[1], &i)
+					js = parts[2]
+					var r decodeResult
+					json.Unmarshal([]byte(js), &r)
+					results[base+i] = &r
+					if i == last {
+						last = -1
+					}
 				}
 			}
-		}
-		if last >= 0 {
-			// the child died inside case `last`
-			crashes++
-			msg := errb.String()
-			if len(msg) > 600 {
-				msg = msg[:600]
+			if last >= 0 {
+				// the child died inside case `last`
+				crashes++
+				msg := errb.String()
+				if len(msg) > 600 {
+					msg = msg[:600]
+				}
+				results[base+last] = &decodeResult{Class: "crash", Msg: msg}
+				first = last + 1
+				continue
 			}
-			results[last] = &decodeResult{Class: "crash", Msg: msg}
-			first = last + 1
-			continue
+			if !progressed {
+				fmt.Fprintln(os.Stderr, "hostile-child did not start:", errb.String())
+				return 2
+			}
+			break
 		}
-		break
 	}
 	evals := 0
 	var samples []interface{}
